@@ -101,6 +101,20 @@ class Interp:
         ret = self.call_func(f, list(args or []), dict(kwargs or {}), fn)
         return Result(ret, self._last_returns, self._last_env, self.events, self_obj)
 
+    def index_symbol(self, length):
+        """generic index of the index space of the given length (one symbol per distinct length, decided by random
+        interpretation so that arange(n) and arange(1, n+1) share their index)"""
+        if not hasattr(self, "_index_syms"):
+            self._index_syms = []
+        for lt, s_ in self._index_syms:
+            if lt == length or tm.equivalent(lt, length, n=8, samplers=self.index_samplers, seed_tag="idx"):
+                return s_
+        s_ = sym(f"idx{len(self._index_syms)}")
+        self._index_syms.append((length, s_))
+        return s_
+
+    index_samplers = None
+
     def closure_for(self, qual):
         """free variables of a nested function analysed on its own: the parameters of the enclosing functions, as
         their literal defaults where they have one, else as symbols; nested sibling functions as functions"""
@@ -458,6 +472,14 @@ class Interp:
             return [K(k) for k in it.items]
         if isinstance(it, Arr) and it.ndim == 1:
             return [Val(c) for c in it.cols]
+        if isinstance(it, Val) and getattr(it, "arange", None) is not None:
+            try:
+                a, b, c = (pyval(x) for x in it.arange)
+                r = range(int(a), int(b), int(c))
+                if len(r) <= MAX_UNROLL:
+                    return [K(i) for i in r]
+            except (NotConst, TypeError, ValueError):
+                pass
         if isinstance(it, Val):
             try:
                 v = pyval(it)
